@@ -343,10 +343,57 @@ impl<'a, 'tcx> Cx<'a, 'tcx> {
                         s.truncate(200);
                     }
                     o = o.fs("text", s);
+                    // small constant tables (arrays of integers / field-less enums, also behind a
+                    // reference as promoted constants are): their bytes, so that rules can read the table
+                    if let Some((bytes, elem, n)) = self.const_table(c, ty) {
+                        o = o
+                            .f("bytes", J::Arr(bytes.iter().map(|b| J::Num(*b as i128)).collect()))
+                            .fs("elem_ty", elem)
+                            .fn_("len", n as i128);
+                    }
                 }
             }
         }
         o.done()
+    }
+
+    fn const_table(&self, c: &ConstOperand<'tcx>, ty: Ty<'tcx>) -> Option<(Vec<u8>, String, u64)> {
+        use rustc_middle::mir::ConstValue;
+        let tcx = self.tcx;
+        let (arr_ty, by_ref) = match ty.kind() {
+            ty::Ref(_, inner, _) => (*inner, true),
+            _ => (ty, false),
+        };
+        let (elem, n) = match arr_ty.kind() {
+            ty::Array(elem, len) => (*elem, len.try_to_target_usize(tcx)?),
+            _ => return None,
+        };
+        let esize = tcx.layout_of(self.typing_env.as_query_input(elem)).ok()?.size.bytes();
+        let total = esize.checked_mul(n)?;
+        if total == 0 || total > 4096 {
+            return None;
+        }
+        let val = c.const_.eval(tcx, self.typing_env, c.span).ok()?;
+        let (alloc_id, offset) = match val {
+            ConstValue::Indirect { alloc_id, offset } if !by_ref => (alloc_id, offset),
+            ConstValue::Scalar(rustc_middle::mir::interpret::Scalar::Ptr(ptr, _)) if by_ref => {
+                let (prov, off) = ptr.into_raw_parts();
+                (prov.alloc_id(), off)
+            }
+            _ => return None,
+        };
+        let mem = match tcx.global_alloc(alloc_id) {
+            rustc_middle::mir::interpret::GlobalAlloc::Memory(m) => m,
+            _ => return None,
+        };
+        let start = offset.bytes() as usize;
+        let end = start + total as usize;
+        let inner = mem.inner();
+        if end > inner.len() {
+            return None;
+        }
+        let bytes = inner.inspect_with_uninit_and_ptr_outside_interpreter(start..end).to_vec();
+        Some((bytes, ty_str(elem), n))
     }
 
     fn fn_ref(&self, def_id: DefId, args: ty::GenericArgsRef<'tcx>) -> J {
